@@ -363,7 +363,11 @@ def observe(binfile, case, fs, nc, content, selectors, early=None, env=None, api
         t["ns"] = int(sr.ns)
         t["rows"] = int(sr.shape[0])
         t["ncok"] = bool(sr.shape[1] == nc and sr.nc == nc)
-        t["rlf"] = _proj_frames(sr.rl * fs)[0] if _proj_frames(sr.rl * fs)[1] else -2
+        try:
+            rlx = float(sr.rl) * fs
+        except (TypeError, ValueError):     # a duration that is not a number matches no sample count
+            rlx = 0.5
+        t["rlf"] = _proj_frames(rlx)[0] if _proj_frames(rlx)[1] else -2
         fts = sr.meta.get("fileTimeSecs")
         t["ftsq"], t["ftsw"] = _proj_frames(None if fts is None else fts * fs)
         reads = functools.partial(_do_reads, sr, selectors, apis, content, q, nc, stream)
